@@ -38,7 +38,7 @@ SPEC = dict(
     ],
 )
 
-WEIGHTS = [3.0, -2.0, 5.0]  # no weight equals 1: a single task must still be weighted
+WEIGHTS = [3.0, -2.0, 5.0, 0.5, -4.0, 7.0]  # no weight equals 1: a single task must still be weighted
 
 
 def gen_cases(tier, seed):
@@ -64,6 +64,16 @@ def gen_cases(tier, seed):
 
     add("S1", 1, True, "all")
     add("S2", 1, True, "all")
+    # five and six tasks (chunk sizes m-1 and m-2 that neither divide m nor exceed it) on the first programs of S1; added after a seeded
+    # change whose "balanced" chunks skipped rows for (m, c) = (5,4), (6,4), ...
+    k = len(M.TEMPLATES_EXT)
+    for prog, feats in list(P.enum_program_outputs(P.SHAPE_SCENARIOS["S1"], (1, 1, 1), 1, both_orders=False))[:6]:
+        if P.Typed(prog).node_nested(feats):
+            continue
+        for nt in (5, 6):
+            for a in (0, 3):
+                heads = [{"tpl": [t for t in M.TEMPLATES_EXT if t != "H7"][(a + i) % (k - 1)], "f": (i + a) % len(feats)} for i in range(nt)]
+                cases.append(dict(desc=dict(trunk=prog, feats=feats, heads=heads), seed=seed))
     if tier == "thorough":
         add("S1", 2, False, "consecutive")
         add("S2", 2, False, "consecutive")
@@ -74,9 +84,9 @@ def _configs(nt, around):
     """(loss order, shared mode, task mode, aggregator, chunk, dtype[, container kind of the parameter arguments])"""
     cfgs = []
     ident = tuple(range(nt))
-    for perm in itertools.permutations(range(nt)):
+    for perm in (itertools.permutations(range(nt)) if nt <= 3 else [ident, ident[::-1], ident[1:] + ident[:1]]):
         cfgs.append((perm, "all", "own", "const", None, "float64"))
-    for k in sorted({1, 2, nt + 1}):
+    for k in sorted({1, 2, nt + 1} | ({nt - 1, nt - 2} if nt >= 5 else set())):
         cfgs.append((ident[::-1], "all-rev", "own-rev", "const", k, "float64"))
     if not around:
         cfgs.append((ident, "default", "default", "const", None, "float64"))
